@@ -48,6 +48,7 @@ type Env struct {
 	pkg       *types.Package
 	results   []SVal
 	noUnfold  bool
+	unfoldDepth int
 	forceUnfold bool
 	inOld     bool
 	fnOverride *ssa.Function
@@ -97,6 +98,9 @@ func (e *Env) stOf(v SVal) *State {
 }
 
 func (e *Env) evalBool(x Expr) string {
+	if len(e.bound) == 0 {
+		e.vc.curClause = exprString(x)
+	}
 	v := e.eval(x)
 	if v.sort != "Bool" {
 		e.fail("expected boolean: %s", exprString(x))
@@ -288,7 +292,11 @@ func (e *Env) evalIdent(name string) SVal {
 			return SVal{pkgName: types.NewPkgName(0, pkg, name, pn)}
 		}
 	}
-	e.fail("unknown name %q", name)
+	ctx := ""
+	if e.loop != nil {
+		ctx = fmt.Sprintf(" (at loop %d, header block %d)", e.loop.ordinal, e.loop.header.Index)
+	}
+	e.fail("unknown name %q%s", name, ctx)
 	return SVal{}
 }
 
@@ -1005,46 +1013,12 @@ func (e *Env) evalCall(n *ECall) SVal {
 		if e.loop == nil || e.loop.entryState == nil {
 			e.fail("atentry outside a loop invariant")
 		}
-		savedCur := e.cur
-		savedOv := map[*ssa.Phi]string{}
-		savedVals := map[*ssa.Phi]string{}
-		for ph, t := range e.loop.entryPhis {
-			savedOv[ph] = vc.phiOverride[ph]
-			if cur, ok := vc.vals[ph]; ok {
-				savedVals[ph] = cur
-				delete(vc.vals, ph)
-			}
-			vc.phiOverride[ph] = t
-		}
-		e.cur = e.loop.entryState
-		v := e.eval(n.Args[0])
-		e.cur = savedCur
-		for ph := range e.loop.entryPhis {
-			if savedOv[ph] == "" {
-				delete(vc.phiOverride, ph)
-			} else {
-				vc.phiOverride[ph] = savedOv[ph]
-			}
-			if sv, ok := savedVals[ph]; ok {
-				vc.vals[ph] = sv
-			}
-		}
-		if v.st == nil {
-			v.st = e.loop.entryState
-		}
-		return v
+		return e.withPhis(e.loop.entryPhis, e.loop.entryState, func() SVal { return e.eval(n.Args[0]) })
 	case "iterold":
-		if e.iterOld == nil {
+		if e.iterOld == nil || e.loop == nil {
 			e.fail("iterold outside loop preservation")
 		}
-		saved := e.cur
-		e.cur = e.iterOld
-		v := e.eval(n.Args[0])
-		e.cur = saved
-		if v.st == nil {
-			v.st = e.iterOld
-		}
-		return v
+		return e.withPhis(e.loop.hdrPhis, e.iterOld, func() SVal { return e.eval(n.Args[0]) })
 	case "forall", "exists":
 		return e.evalQuant(id.Name, n)
 	case "ite":
@@ -1064,7 +1038,8 @@ func (e *Env) evalCall(n *ECall) SVal {
 		case *types.Array:
 			return mathInt(fmt.Sprint(t.Len()))
 		case *types.Map:
-			_, _, ml, _, _, _, _ := vc.mapTerms(e.stOf(v), t)
+			md, _, ml, ks, _, _, _ := vc.mapTerms(e.stOf(v), t)
+			e.addSide(fmt.Sprintf("(and (>= (select %s %s) 0) (forall ((k!l %s)) (! (=> (select (select %s %s) k!l) (> (select %s %s) 0)) :pattern ((select (select %s %s) k!l)))))", ml, v.t, ks, md, v.t, ml, v.t, md, v.t), "")
 			return mathInt(fmt.Sprintf("(select %s %s)", ml, v.t))
 		case *types.Basic:
 			return mathInt("(strlen " + v.t + ")")
@@ -1237,6 +1212,29 @@ func (e *Env) evalMethodCall(sel *ESelect, args []Expr) SVal {
 	if x.typ == nil {
 		e.fail("method call on untyped value")
 	}
+	// call of a function-typed field with a pure funcfield contract
+	if path, ft := e.lookupField(x.typ, sel.Name); path != nil {
+		if fsig, ok := ft.Underlying().(*types.Signature); ok {
+			named, ok := derefType(x.typ).(*types.Named)
+			if !ok {
+				e.fail("function field of unnamed struct")
+			}
+			key := "funcfield:" + named.Obj().Pkg().Path() + "." + named.Obj().Name() + "." + sel.Name
+			spec := vc.w.funcSpecs[key]
+			if spec == nil || !spec.Pure {
+				e.fail("function field %s used in a contract has no pure contract (%s)", sel.Name, key)
+			}
+			fv := e.selectField(x, sel.Name)
+			var argVals []SVal
+			for _, a := range args {
+				argVals = append(argVals, e.eval(a))
+			}
+			t := vc.pureApp(key, fsig, fv, argVals)
+			rt := fsig.Results().At(0).Type()
+			e.rangeSide(t, rt)
+			return SVal{t: t, typ: rt, sort: vc.d.sortOf(rt), st: x.st}
+		}
+	}
 	// pure interface method / pure concrete method → uninterpreted function of the receiver value
 	var key string
 	var sig *types.Signature
@@ -1335,6 +1333,40 @@ func (e *Env) specArgTerms(sf *SpecFunc, vals []SVal) []string {
 	return ts
 }
 
+// withPhis evaluates f with the loop-carried variables bound to the given values and the
+// heap read in state st (used by atentry(...) and iterold(...)).
+func (e *Env) withPhis(phis map[*ssa.Phi]string, st *State, f func() SVal) SVal {
+	vc := e.vc
+	savedCur := e.cur
+	savedOv := map[*ssa.Phi]string{}
+	savedVals := map[*ssa.Phi]string{}
+	for ph, t := range phis {
+		savedOv[ph] = vc.phiOverride[ph]
+		if cur, ok := vc.vals[ph]; ok {
+			savedVals[ph] = cur
+			delete(vc.vals, ph)
+		}
+		vc.phiOverride[ph] = t
+	}
+	e.cur = st
+	v := f()
+	e.cur = savedCur
+	for ph := range phis {
+		if savedOv[ph] == "" {
+			delete(vc.phiOverride, ph)
+		} else {
+			vc.phiOverride[ph] = savedOv[ph]
+		}
+		if sv, ok := savedVals[ph]; ok {
+			vc.vals[ph] = sv
+		}
+	}
+	if v.st == nil {
+		v.st = st
+	}
+	return v
+}
+
 // scopeOf returns the types.Package in which the names of a contract item are resolved.
 func (e *Env) scopeOf(pkgPath string) *types.Package {
 	if pkgPath == "" {
@@ -1406,13 +1438,16 @@ func (e *Env) applySpecFunc(sf *SpecFunc, args []Expr) SVal {
 		app = name
 	}
 	res := SVal{t: app, typ: retTyp, sort: retSort}
-	if sf.Body != nil && ((sf.Recursive && !e.noUnfold) || (sf.Opaque && e.forceUnfold)) {
-		// one-step unfolding instance of the definition
-		saved, savedVars, savedU := e.noFnNames, e.vars, e.noUnfold
-		e.noFnNames, e.noUnfold = true, true
+	if sf.Body != nil && ((sf.Recursive && !e.noUnfold && e.unfoldDepth < 2) || (sf.Opaque && e.forceUnfold)) {
+		// unfolding instance of the definition (recursive calls inside are unfolded once more)
+		saved, savedVars, savedF := e.noFnNames, e.vars, e.forceUnfold
+		e.noFnNames = true
+		e.forceUnfold = false
+		e.unfoldDepth++
 		e.vars = bind()
 		body := e.eval(sf.Body)
-		e.vars, e.noFnNames, e.noUnfold = savedVars, saved, savedU
+		e.unfoldDepth--
+		e.vars, e.noFnNames, e.forceUnfold = savedVars, saved, savedF
 		e.addSide(fmt.Sprintf("(= %s %s)", app, body.t), app)
 	}
 	return res
@@ -1458,18 +1493,22 @@ func (e *Env) lemmaInstance(lm *Lemma, args []Expr) string {
 		e.fail("lemma %s expects %d arguments", lm.Name, len(lm.Params))
 	}
 	m := map[string]SVal{}
-	for i, p := range lm.Params {
-		v := e.eval(args[i])
-		_, pt := e.sortOfTypeString(p.Type)
-		if pt != nil && v.typ == nil {
-			v.typ = pt
-		}
-		m[p.Name] = v
+	var argVals []SVal
+	for i := range lm.Params {
+		argVals = append(argVals, e.eval(args[i])) // arguments: caller's scope
 	}
 	if sp := e.scopeOf(lm.Pkg); sp != nil && sp != e.pkgScope() {
 		savedPkg := e.pkg
 		e.pkg = sp
 		defer func() { e.pkg = savedPkg }()
+	}
+	for i, p := range lm.Params {
+		v := argVals[i]
+		_, pt := e.sortOfTypeString(p.Type)
+		if pt != nil && v.typ == nil {
+			v.typ = pt
+		}
+		m[p.Name] = v
 	}
 	saved, savedVars := e.noFnNames, e.vars
 	e.noFnNames = true
